@@ -78,6 +78,16 @@ class Scn:
         self.domains[name] = domain
         return p
 
+    def adopt(self, name, param, domain="real"):
+        """register a Parameter the code under test built itself (e.g. the anonymous parameters Distribution.from_json makes of numbers)"""
+        self.params[name] = param
+        self.domains[name] = domain
+        return param
+
+    def val(self, name, default):
+        v = self.vals.get(name, default)
+        return v.detach().tolist() if isinstance(v, torch.Tensor) else v
+
     def D(self, name, obj, domain=None):
         self.derived[name] = obj
         self.domains[name] = domain
@@ -777,6 +787,30 @@ def _joint(s):
     s.dists["prior.z"] = d7
     s.dists["prior.a"] = d1
     return j
+
+
+@scenario("dist.from_json.numbers", "torchtree.distributions.distributions.Distribution")
+def _s(s):
+    """a Distribution whose parameters are written as plain numbers / lists in the model file: from_json turns them into ANONYMOUS
+    parameters (id None); each one can still be updated (e.g. through a hyper-prior sampler holding the object) and must be listened to"""
+    from torchtree.distributions.distributions import Distribution
+    from torchtree.distributions.joint_distribution import JointDistributionModel
+    x = s.P("x", [0.5, 1.5], "pos")
+    data = {"id": "d", "type": "Distribution", "distribution": "torch.distributions.Gamma", "x": "x",
+            "parameters": {"concentration": s.val("d.concentration", 2.0), "rate": s.val("d.rate", [3.0])}}
+    d = s.M("d", Distribution.from_json(data, {"x": x}), out=True)
+    s.adopt("d.concentration", d.dict_parameters["concentration"], "pos")
+    s.adopt("d.rate", d.dict_parameters["rate"], "pos")
+    data2 = {"id": "n", "type": "Distribution", "distribution": "torch.distributions.Normal", "x": "x",
+             "parameters": {"loc": s.val("n.loc", [0.1, 0.2]), "scale": s.val("n.scale", 1.5)}}
+    n = s.M("n", Distribution.from_json(data2, {"x": x}))
+    s.adopt("n.loc", n.dict_parameters["loc"], "real")
+    s.adopt("n.scale", n.dict_parameters["scale"], "pos")
+    j = s.M("joint", JointDistributionModel("joint", [d, n]))
+    s.E("d.__call__", lambda: d())
+    s.E("n.__call__", lambda: n())
+    s.E("joint.__call__", lambda: j())
+    s.dists["d"] = d
 
 
 @scenario("ctmc_scale", "torchtree.distributions.ctmc_scale.CTMCScale")
@@ -1939,6 +1973,46 @@ def check_handler_ast_only(cls, hname):
     return {"backend": "ast", "static": st, "statement": "%s.%s: every self attribute resolves; sets %s; fires %s" % (cls.__name__, hname, st["sets_true"], st["fires"])}
 
 
+def _fires(node):
+    return any(isinstance(x, ast.Call) and _is_self_attr(x.func) and x.func.attr in ("fire_model_changed", "fire_parameter_changed") for x in ast.walk(node))
+
+
+def _stores_after_fire(stmts):
+    """self attributes assigned, in one statement list or its nested lists, by a statement that FOLLOWS one which announces the change"""
+    late = []
+    fired = False
+    for st in stmts:
+        if fired:
+            late += sorted(_assigned_self_attrs([st]))
+        for field in ("body", "orelse", "finalbody"):
+            sub = getattr(st, field, None)
+            if isinstance(sub, list) and sub and isinstance(sub[0], ast.stmt):
+                late += _stores_after_fire(sub)
+        for h in getattr(st, "handlers", []) or []:
+            late += _stores_after_fire(h.body)
+        if _fires(st):
+            fired = True
+    return late
+
+
+def check_handler_order(cls, hname):
+    """(b, ordering) a handler marks its own state stale BEFORE it announces the change: listeners are called synchronously, one that reads the
+    object inside the notification would otherwise be served the cached value of the previous parameters (and pass it on)"""
+    fns = resolved_functions(cls)
+    if hname not in fns:
+        raise Undecided("%s has no %s" % (_qual(cls), hname))
+    k, fn, _ = fns[hname]
+    node = _fn_ast(fn)
+    if node is None:
+        raise Undecided("source of %s.%s unavailable" % (k.__name__, hname))
+    late = _stores_after_fire(node.body)
+    if late:
+        raise Refuted("%s.%s (defined in %s) assigns self.%s AFTER announcing the change to its listeners: a listener that reads the object inside the "
+                      "notification gets the value cached for the previous parameter values" % (cls.__name__, hname, k.__name__, sorted(set(late))),
+                      witness={"class": _qual(cls), "handler": hname, "assigned_after_fire": sorted(set(late))}, replay=None, confirmed=False)
+    return {"backend": "ast", "statement": "%s.%s: no self attribute is assigned after fire_model_changed / fire_parameter_changed" % (cls.__name__, hname)}
+
+
 # ================================================================================================
 # (c) read set is a subset of the notifying set
 # ================================================================================================
@@ -3019,6 +3093,10 @@ def obligations(tier, seed):
             nm = "C11.b.handler[%s.%s]" % (q, h)
             fn = (lambda q=q, h=h, scns=scns: check_handler(q, h, scns)) if scns else (lambda c=c, h=h: check_handler_ast_only(c, h))
             add(nm, fn, "(b) handlers invalidate and propagate")
+            mine.append((nm, fn))
+            nm = "C11.b.order[%s.%s]" % (q, h)
+            fn = (lambda c=c, h=h: check_handler_order(c, h))
+            add(nm, fn, "(b) handlers mark themselves stale before they announce the change")
             mine.append((nm, fn))
         nm = "C11.c.readset[%s]" % short(c)
         if scns:
